@@ -317,6 +317,15 @@ namespace Pistache::Http::Experimental
         if (!conn)
             throw std::runtime_error("Send request error");
 
+        if (!conn->isConnected())
+        {
+            // The connection was closed (by the server, by a time-out) after this request had
+            // been prepared on it - requests are handed over from any client thread. Its
+            // descriptor number may already belong to the connection that replaces it.
+            conn->handleError("Could not send request");
+            return;
+        }
+
         auto fd = conn->fd();
 
         ssize_t totalWritten = 0;
@@ -324,7 +333,7 @@ namespace Pistache::Http::Experimental
         {
             const char* data           = buffer.data() + totalWritten;
             const ssize_t len          = buffer.size() - totalWritten;
-            const ssize_t bytesWritten = ::send(fd, data, len, 0);
+            const ssize_t bytesWritten = ::send(fd, data, len, MSG_NOSIGNAL);
             if (bytesWritten < 0)
             {
                 if (errno == EAGAIN || errno == EWOULDBLOCK)
@@ -337,6 +346,10 @@ namespace Pistache::Http::Experimental
                 }
                 else
                 {
+                    // the connection is broken (EPIPE, ECONNRESET): give it up, so that the
+                    // next request opens a new one
+                    connections.erase(fd);
+                    conn->close();
                     conn->handleError("Could not send request");
                 }
                 break;
@@ -519,7 +532,11 @@ namespace Pistache::Http::Experimental
             {
                 if (errno != EAGAIN && errno != EWOULDBLOCK)
                 {
-                    connection->handleError(strerror(errno));
+                    // e.g. reset by the server: the connection is of no use any more
+                    const std::string error = strerror(errno);
+                    connections.erase(connection->fd());
+                    connection->close();
+                    connection->handleError(error.c_str());
                 }
                 break;
             }
